@@ -18,9 +18,9 @@ CURVES = {
                     aff=("PointDuif", ["ypx", "ymx", "t2d"], ["set_add_duif", "set_sub_duif"], False)),
     "ed448": dict(file="src/ed448.rs", F="GF448", coords=["X", "Y", "Z"],
                   aff=("PointAffine", ["x", "y"], ["set_add_affine", "set_sub_affine"], False)),
-    "p256": dict(file="src/p256.rs", F="GFp256", coords=["X", "Y", "Z"],
+    "p256": dict(file="src/p256.rs", F="GFp256", coords=["X", "Y", "Z"], ctor=True,
                  aff=("PointAffine", ["x", "y"], ["set_add_affine", "set_sub_affine"], True)),
-    "secp256k1": dict(file="src/secp256k1.rs", F="GFsecp256k1", coords=["X", "Y", "Z"],
+    "secp256k1": dict(file="src/secp256k1.rs", F="GFsecp256k1", coords=["X", "Y", "Z"], ctor=True,
                       aff=("PointAffine", ["x", "y"], ["set_add_affine", "set_sub_affine"], True)),
     "jq255e": dict(file="src/jq255e.rs", F="GF255e", coords=["E", "U", "Z", "T"],
                    aff=("PointAffineExtended", ["e", "u", "t"],
@@ -93,8 +93,23 @@ def module_source(curve):
         outs = ", ".join("P.%s.encode().to_vec()" % c for c in d["coords"])
     A("    fn pt(a: &[Vec<u8>], i: usize) -> Point { %s }" % ctor)
     A("    pub fn call(func: &str, n: u64, a: &[Vec<u8>]) -> Vec<Vec<u8>> {")
-    A("        let mut P = if a.len() >= %d { pt(a, 0) } else { Point::BASE };" % k)
+    if d.get("ctor"):
+        # C03 constructors: `fp:<func>` builds the first operand through the public
+        # `Point::from_projective` (panics when it is rejected) instead of the raw struct
+        A("        let viafp = func.starts_with(\"fp:\");")
+        A("        let func = if viafp { &func[3..] } else { func };")
+        A("        let mut P = if viafp { Point::from_projective(fe(&a[0]), fe(&a[1]), fe(&a[2]))"
+          ".expect(\"from_projective\") } else if a.len() >= %d { pt(a, 0) } else { Point::BASE };" % k)
+    else:
+        A("        let mut P = if a.len() >= %d { pt(a, 0) } else { Point::BASE };" % k)
     A("        match func {")
+    # C03: public constructors; a rejected input is reported as the single byte 0
+    A("            \"decode\" => { match Point::decode(&a[0]) { Some(Q) => { P = Q; } None => { return vec![vec![0u8]]; } } }")
+    if d.get("ctor"):
+        A("            \"from_projective\" => { match Point::from_projective(fe(&a[0]), fe(&a[1]), fe(&a[2])) "
+          "{ Some(Q) => { P = Q; } None => { return vec![vec![0u8]]; } } }")
+        A("            \"from_affine\" => { match Point::from_affine(fe(&a[0]), fe(&a[1])) "
+          "{ Some(Q) => { P = Q; } None => { return vec![vec![0u8]]; } } }")
     A("            \"set_add\" => { let Q = pt(a, %d); P.set_add(&Q); }" % k)
     A("            \"set_sub\" => { let Q = pt(a, %d); P.set_sub(&Q); }" % k)
     for op, sym in (("add", "+"), ("sub", "-")):
@@ -263,7 +278,9 @@ class Replay:
         lines = []
         for cv, fn, n, vals in requests:
             L = enc_len[cv]
-            lines.append("%s %s %d %s" % (cv, fn, n, " ".join(int(v).to_bytes(L, "little").hex() for v in vals)))
+            lines.append("%s %s %d %s" % (cv, fn, n, " ".join(
+                (bytes(v).hex() if isinstance(v, (bytes, bytearray)) else int(v).to_bytes(L, "little").hex())
+                for v in vals)))
         p = subprocess.run([self.exe], input="\n".join(lines) + "\n", stdout=subprocess.PIPE,
                            stderr=subprocess.PIPE, text=True, timeout=300)
         outs = p.stdout.strip().split("\n")
